@@ -150,6 +150,11 @@ Proof.
     inversion E; subst. repeat split.
   - inversion E; subst. repeat split.
   - destruct (nth_error (c_loggers c) l) as [[[[? ?] ?] ?]|]; [|discriminate]. inversion E; subst. repeat split.
+  - destruct (negb _); [discriminate|]. inversion E; subst; clear E. cbn [with_out s_nodes s_stks s_toks].
+    destruct (logger_enabled c l); [|repeat split].
+    generalize (map_children (fun r => fold_left (fun r a => set_arg a r) args r) (create_multi st (active_ident c st t))). intro ch.
+    clear N. revert st. induction n as [|n IH]; intro st; cbn [emit_n]; [repeat split|].
+    destruct (IH (emit_children c st l ch)) as (E1 & E2 & E3). rewrite E1, E2, E3. repeat split.
 Qed.
 
 Lemma CInv_frame : forall st st', s_nodes st' = s_nodes st -> s_stks st' = s_stks st -> CInv st -> CInv st'.
